@@ -1282,7 +1282,14 @@ func (m *Nitro) LoadFromDisk(dir string, concurr int, callb ItemCallback) (*Snap
 		}
 	}
 
+	// The restored skiplist replaces the (empty) store created with the
+	// instance: release the sentinel nodes of the old one.
+	oldStore := m.store
 	m.store = b.Assemble(segments...)
+	if m.useMemoryMgmt && oldStore != nil {
+		oldStore.FreeNode(oldStore.HeadNode(), &oldStore.Stats)
+		oldStore.FreeNode(oldStore.TailNode(), &oldStore.Stats)
+	}
 
 	// Delta processing
 	if m.useDeltaFiles {
